@@ -284,4 +284,15 @@ theorem flatMap_length_ge (mtime : Int) (ms : List Member) : ms.length ≤ (ms.f
     have := member_length_ge mtime m
     omega
 
+/-- **ar round trip**: reading what was written gives the members back -/
+theorem read_file (mtime : Int) (ms : List Member) (hm : ∀ m ∈ ms, MemberOK m) : read (file mtime ms) = some ms := by
+  unfold read file
+  have h8 : globalHeader.length = 8 := by decide
+  rw [List.take_left' h8, List.drop_left' h8]
+  simp only [ne_eq, not_true_eq_false, if_false]
+  apply readMembers_all mtime ms hm
+  have := flatMap_length_ge mtime ms
+  simp only [List.length_append, h8]
+  omega
+
 end Nfpm.Ar
